@@ -297,7 +297,7 @@ def gen(tier: str, seed: int) -> list[Case]:
     rng = rng_for(seed, PID, "pairs")
     _UNIQ[0] = 0
     gated = gated_features()
-    n = 10 if tier == "quick" else 120
+    n = 10 if tier == "quick" else 500
     cases = []
     for i in range(n):
         files, info = build_pair_package(rng, gated)
